@@ -81,6 +81,13 @@ def profile():
             'op[]:PresMap:qstr': ('expr', '*PresMap_index({0}, {1})'),
             'op[]:ResMap:qstr': ('expr', '*ResMap_index({0}, {1})'),
             'ResMap::remove/1': ('fn', 'ResMap_remove'),
+            'ResMap::size/0': ('fn', 'ResMap_size'),
+            'ResMap::count/0': ('fn', 'ResMap_size'),
+            'ResMap::isEmpty/0': ('fn', 'ResMap_isEmpty'),
+            'ResMap::contains/1': ('fn', 'ResMap_contains'),
+            'PresMap::value/1': ('fnret', 'PresMap_value'),
+            'PresMap::remove/1': ('fn', 'PresMap_remove'),
+            'PresMap::contains/1': ('fn', 'PresMap_contains'),
             'qpres::from/0': ('fn', 'qpres_from'),
             'qpres::type/0': ('fn', 'qpres_type'),
             # signals -> event log (events.h)
